@@ -113,6 +113,7 @@ static std::string libText(const FC &c) {
 }
 
 static std::string checkOne(const FC &c, bool *nt = nullptr) {
+    armCase("sub=one\n" + replayOf(c));
     std::string t = libText(c);
     double v = c.isFloat ? (double) (float) c.v : c.v;
     if (nt) *nt = false;
